@@ -19,3 +19,13 @@ def uninstall(module, name):
         module.__dict__.pop(name, None)
     else:
         module.__dict__[name] = old
+
+
+def uninstall_all():
+    import sys
+    for (modname, name) in list(_SAVED):
+        mod = sys.modules.get(modname)
+        if mod is not None:
+            uninstall(mod, name)
+        else:
+            _SAVED.pop((modname, name), None)
